@@ -37,6 +37,13 @@ def generate(rng, tier):
                            "site:login-challenge", "ok %s %s %s ~48" % (s.K.hex(), s.M2.hex(), chal.hex())))
             cs.append(Case("cli.new %s %s 7 %s %s %s | %s" % (enc(us), enc(ps), N_LE.hex(), s.B32.hex(), salt.hex(), (a + extra).hex()), "site:client-private-key",
                            "ok %s %s ~32" % (s.A32.hex(), s.M1.hex())))
+            for np in (65537, 0x010000000001, (1 << 255) + 1, 251, int.from_bytes(bytes([0x11, 0x00] * 16), "little") | 1):
+                from srp_cases import client_expect
+                Bx = rbytes(rng, 32)
+                e = client_expect(us, ps, 7, np, Bx, salt, a)
+                if e is not None and Bx not in (Z32, N_LE):
+                    cs.append(Case("cli.new %s %s 7 %s %s %s | %s" % (enc(us), enc(ps), le32(np).hex(), Bx.hex(), salt.hex(), (a + extra).hex()),
+                                   "site:client-private-key-under-announced-modulus", "ok %s %s ~32" % (e["A32"].hex(), e["M1"].hex())))
             cd, sc = rbytes(rng, 16), rbytes(rng, 16)
             cs.append(Case("cli.recon %s %s %s | %s" % (enc(us), enc(ps), sc.hex(), (salt + b + a + chal + cd + extra).hex()), "site:client-reconnect-challenge",
                            "ok %s %s ~128" % (cd.hex(), pyref.reconnect_proof(s.U, cd, sc, s.K).hex())))
